@@ -158,6 +158,8 @@ DIRECTIVES = [
     ("pragma-once", "#pragma once{c}\nint after;\n", lambda d: [[t.value for t in p.content.tokens] for p in d.pragmas], [["once"]]),
     ("pragma-args", "#pragma pack(push, 1){c}\nint after;\n", lambda d: [[t.value for t in p.content.tokens] for p in d.pragmas], [["pack", "(", "push", ",", "1", ")"]]),
     ("hash-space-pragma", "#  pragma once{c}\nint after;\n", lambda d: [[t.value for t in p.content.tokens] for p in d.pragmas], [["once"]]),
+    ("pragma-comment-inside", "#pragma omp /* w */ parallel /**/for{c}\nint after;\n", lambda d: [[t.value for t in p.content.tokens] for p in d.pragmas], [["omp", "parallel", "for"]]),
+    ("pragma-continued", "#pragma omp \\\n parallel{c}\nint after;\n", lambda d: [[t.value for t in p.content.tokens] for p in d.pragmas], [["omp", "parallel"]]),
 ]
 DIR_COMMENTS = ["", " ", " // c", " /* c */", "/* c */", "\t// c", " /* c */ ", "\r"]
 
